@@ -510,6 +510,17 @@ func genDictCase(cx *CheckCtx, i int, allowQualKeys bool) *Case {
 		// text with fmt verbs in it (rendered text must never be used as a format string)
 		func() *Stmt { return st(mkLit(pick(r, []string{"%d items", "100%", "%s", "%%", "%!v(MISSING)"}))) },
 		func() *Stmt { return st(id("n"), op("%"), mkLit(2+r.Intn(3))) },
+		// a composite literal as KEY (a struct used as map key): a Dict rendered while the outer
+		// Dict is in the middle of rendering one of its keys
+		func() *Stmt {
+			inner := &Dict{}
+			fields := []string{"R", "S", "W", "H", "X"}
+			r.Shuffle(len(fields), func(a, b int) { fields[a], fields[b] = fields[b], fields[a] })
+			for q := 0; q < 1+r.Intn(3); q++ {
+				inner.Pairs = append(inner.Pairs, [2]Arg{st(id(fields[q])), st(mkLit(r.Intn(10)))})
+			}
+			return st(id(pick(r, []string{"Circle", "Square", "Rect", "A", "Zed"})), &Grp{Api: "Values", Args: []Arg{inner}})
+		},
 	}
 	for j := 0; j < n; j++ {
 		k := keyPool[r.Intn(len(keyPool))]()
